@@ -104,7 +104,6 @@ theorem unchecked_assertions_expected : Gen.uncheckedAssertions =
      ("compiler.parse", "cmpl.parseExpression(…).(*nodeFunctionLiteral)"),
      ("compiler.parseExpression", "cmpl.parseExpression(…).(*nodeFunctionLiteral)"),
      ("fnStash.clone", "s.dclStash.clone(…).(*dclStash)"),
-     ("goArrayDefineOwnProperty", "descriptor.value.(Value)"),
      ("goArrayDefineOwnProperty", "obj.value.(*goArrayObject)"),
      ("goArrayDefineOwnProperty", "obj.value.(*goArrayObject)"),
      ("goArrayDelete", "obj.value.(*goArrayObject)"),
@@ -112,14 +111,11 @@ theorem unchecked_assertions_expected : Gen.uncheckedAssertions =
      ("goArrayGetOwnProperty", "obj.value.(*goArrayObject)"),
      ("goArrayGetOwnProperty", "obj.value.(*goArrayObject)"),
      ("goArrayGetOwnProperty", "obj.value.(*goArrayObject)"),
-     ("goMapDefineOwnProperty", "descriptor.value.(Value)"),
      ("goMapDefineOwnProperty", "obj.value.(*goMapObject)"),
      ("goMapDelete", "obj.value.(*goMapObject)"),
      ("goMapEnumerate", "obj.value.(*goMapObject)"),
      ("goMapGetOwnProperty", "obj.value.(*goMapObject)"),
      ("goMapGetOwnProperty", "obj.value.(*goMapObject)"),
-     ("goSliceDefineOwnProperty", "descriptor.value.(Value)"),
-     ("goSliceDefineOwnProperty", "descriptor.value.(Value)"),
      ("goSliceDefineOwnProperty", "obj.value.(*goSliceObject)"),
      ("goSliceDefineOwnProperty", "obj.value.(*goSliceObject)"),
      ("goSliceDelete", "obj.value.(*goSliceObject)"),
@@ -144,19 +140,39 @@ theorem unchecked_assertions_expected : Gen.uncheckedAssertions =
      ("runtime.cmplEvaluateNodeObjectLiteral", "prop.value.(*nodeFunctionLiteral)"),
      ("runtime.cmplEvaluateNodeObjectLiteral", "prop.value.(*nodeFunctionLiteral)"),
      ("runtime.cmplEvaluateNodeStatement", "variable.(*nodeVariableExpression)"),
-     ("runtime.convertCallParameter", "r.Interface(…).(TextUnmarshaler)"),
+     ("runtime.convertCallParameterPath", "r.Interface(…).(TextUnmarshaler)"),
      ("runtime.newErrorObject", "obj.value.(ottoError)"),
      ("runtime.newErrorObjectError", "obj.value.(ottoError)"),
      ("stringDefineOwnProperty", "prop.value.(Value)")] := by decide
 
-/-- P3: explicit panics with a payload Run does not convert are confined to the known
-    internal-invariant sites ("unknown node type", "here be dragons", stash bookkeeping); the bridged
-    Go containers (type_go_*.go) left this list with fix bb377a4, the callback wrapper of
-    convertCallParameter with 0277118; catchPanic's two entries re-raise a foreign (non-script) panic
-    unchanged (the second since 73a8a0f, inside the guarded string conversion); a new one shows up here -/
+/-- P3: the explicit `panic(x)` sites of package otto whose payload is none of the kinds Run converts
+    (*exception, ottoError, *Error, Value), as (function, static payload type).  Every entry was gone
+    through by hand (NOTES.md `## C02`, "audit of the unconverted panic sites"): for each one the argument
+    why no source text and no API value reaches it is written down there, together with the probe scripts
+    that aim at it (they run as `src` requests of the stream).  An earlier version of this comment called the
+    list "internal-invariant sites" without that audit, and two entries were reachable after all by any
+    script holding a bridged Go map / slice (`Value.toReflectValue`, `stringToReflectValue`: fixed by
+    2574b6b / 0a892bc - they now raise a TypeError and left the list).  What remains:
+    * unknown AST / node / token / property-kind branches of closed switches (compiler.parse*,
+      runtime.cmplEvaluateNode*, runtime.calculate*): the parser produces no other node, the only AST
+      placeholders it produces without a case (BadExpression / BadStatement) are a SyntaxError since 9f0855f;
+      a hand-built *ast.Program with nil or foreign nodes is outside the property (sources are text);
+    * value kinds empty / result / reference reaching a conversion or comparison (Value.bool / float64 /
+      string, toPrimitive, sameValue, strictEqualityComparison, testObjectCoercible, calculateComparison):
+      every expression result is resolved before use, `empty` is produced by statements and array elisions
+      only and is filtered by eval, newArrayOf and every API return (`safe()`);
+    * binding bookkeeping (dclStash.*, objectStash.createBinding, getStashProperties): guarded by hasBinding
+      with no script code between test and use; a reference is resolved before any other code can delete
+      the binding (assignment targets go through setValue, which re-creates);
+    * arrayDefineOwnProperty: `length` of an Array is an own, non-configurable data property;
+      cloner.property: writeProperty stores a Value or a getter/setter pair, nothing else;
+    * New: a registered start-up script fails (embedder's registry, not a script's doing);
+    * catchPanic (2): re-raises a foreign panic unchanged, by design (C18 trycatch_foreign; the second
+      since 73a8a0f inside the guarded string conversion, widened by 95e8d32).
+    A new `panic(<non-exception>)` anywhere in the package shows up here and has to be audited. -/
 theorem unconverted_panics_expected : Gen.unconvertedPanics =
     [("New", "error"), ("Value.bool", "string"), ("Value.float64", "error"), ("Value.string", "error"),
-     ("Value.toReflectValue", "error"), ("arrayDefineOwnProperty", "string"), ("catchPanic", "interface{}"),
+     ("arrayDefineOwnProperty", "string"), ("catchPanic", "interface{}"),
      ("catchPanic", "interface{}"), ("cloner.property", "error"), ("compiler.parse", "string"), ("compiler.parseExpression", "error"),
      ("compiler.parseExpression", "string"), ("compiler.parseStatement", "string"), ("dclStash.createBinding", "error"),
      ("dclStash.getBinding", "error"), ("dclStash.setBinding", "error"), ("getStashProperties", "string"),
@@ -167,6 +183,6 @@ theorem unconverted_panics_expected : Gen.unconvertedPanics =
      ("runtime.cmplEvaluateNodeObjectLiteral", "string"), ("runtime.cmplEvaluateNodeStatement", "error"),
      ("runtime.cmplEvaluateNodeStatement", "error"), ("runtime.cmplEvaluateNodeUnaryExpression", "string"),
      ("sameValue", "string"), ("strictEqualityComparison", "string"),
-     ("stringToReflectValue", "error"), ("testObjectCoercible", "string"), ("toPrimitive", "string")] := by decide
+     ("testObjectCoercible", "string"), ("toPrimitive", "string")] := by decide
 
 end OttoVerif.C02.Thm
